@@ -2304,8 +2304,8 @@ impl<'a> Gen<'a> {
                 }
             }
         }
-        if args.is_empty() && !self.rng.chance(1, 10) {
-            // `inst();` is the recorded finding C01-call-empty-args: keep it rare
+        if args.is_empty() && !self.rng.chance(1, 3) {
+            // `inst();` (every input omitted) is a formal call since d406d2d; keep a third of them
             let p = fb.params.iter().find(|p| p.dir == Dir::In)?.clone();
             let e = self.arg_value(p.ty);
             args.push(Arg { name: Some(p.name), arrow: false, e });
